@@ -304,6 +304,8 @@ ADDENDA11 = {
            '(equal / different values, literals / variables, both operand orders) in select many / any / related by.',
     'C07': ' Names family: every non-keyword token name of the grammar and 33 keyword-like names as identifier in fifteen name positions.',
     'C08': ' Operation bodies whose keyword operators have operands with an effect are compared across spellings.',
+    'C10': ' Null family: None, the null value of the type and a non-null value written under every spelling to identifying, plain and '
+           'referential attributes of every core type; reads compared by type and value, filters with every null-ish value under every spelling.',
     'C11': ' Late family: the associations are defined and formalized by an operation of the history, after any mix of creations; '
            'identifiers also cover referential attributes.',
     'C12': ' The statement pool holds a class without attributes, associations to and from it, a row and an identifier of it.',
